@@ -4,6 +4,7 @@ import (
 	"fmt"
 	"go/token"
 	"sort"
+	"strings"
 
 	"golang.org/x/tools/go/ssa"
 
@@ -220,6 +221,65 @@ func checkSRegOperandRange(c *core.Ctx) {
 					c.ReportAt("R04.21", fn, in.Pos(), "sreg-index-unbounded:"+field, fmt.Sprintf("%s builds a scalar register operand from a field whose value can reach %d: indices above 101 select whatever follows s101 in the register table (106, vcc_lo, becomes another register; an inline constant gets no register at all and printing it dereferences nil) instead of the operand the code names", core.FuncName(fn), iv.hi))
 				}
 			}
+		}
+	}
+}
+
+// R04.23: the opcode numbers of the FLAT format. Transcribed from the GCN3 manual
+// (13.x FLAT) and the Vega / CDNA3 manuals, which number these instructions alike.
+var flatOpcodes = map[string]int64{
+	"flat_load_ubyte": 16, "flat_load_sbyte": 17, "flat_load_ushort": 18, "flat_load_sshort": 19,
+	"flat_load_dword": 20, "flat_load_dwordx2": 21, "flat_load_dwordx3": 22, "flat_load_dwordx4": 23,
+	"flat_store_byte": 24, "flat_store_short": 26, "flat_store_dword": 28, "flat_store_dwordx2": 29,
+	"flat_store_dwordx3": 30, "flat_store_dwordx4": 31,
+	"flat_atomic_swap": 64, "flat_atomic_cmpswap": 65, "flat_atomic_add": 66, "flat_atomic_sub": 67,
+	"flat_atomic_smin": 68, "flat_atomic_umin": 69, "flat_atomic_smax": 70, "flat_atomic_umax": 71,
+	"flat_atomic_and": 72, "flat_atomic_or": 73, "flat_atomic_xor": 74, "flat_atomic_inc": 75, "flat_atomic_dec": 76,
+	"flat_atomic_swap_x2": 96, "flat_atomic_cmpswap_x2": 97, "flat_atomic_add_x2": 98, "flat_atomic_sub_x2": 99,
+	"flat_atomic_smin_x2": 100, "flat_atomic_umin_x2": 101, "flat_atomic_smax_x2": 102, "flat_atomic_umax_x2": 103,
+	"flat_atomic_and_x2": 104, "flat_atomic_or_x2": 105, "flat_atomic_xor_x2": 106, "flat_atomic_inc_x2": 107, "flat_atomic_dec_x2": 108,
+}
+
+// The same for the two other small formats whose numbering the manuals list in one table each.
+var smemOpcodes = map[string]int64{
+	"s_load_dword": 0, "s_load_dwordx2": 1, "s_load_dwordx4": 2, "s_load_dwordx8": 3, "s_load_dwordx16": 4,
+	"s_buffer_load_dword": 8, "s_buffer_load_dwordx2": 9, "s_buffer_load_dwordx4": 10, "s_buffer_load_dwordx8": 11, "s_buffer_load_dwordx16": 12,
+	"s_store_dword": 16, "s_store_dwordx2": 17, "s_store_dwordx4": 18,
+	"s_buffer_store_dword": 24, "s_buffer_store_dwordx2": 25, "s_buffer_store_dwordx4": 26,
+	"s_dcache_inv": 32, "s_dcache_wb": 33, "s_dcache_inv_vol": 34, "s_dcache_wb_vol": 35,
+	"s_memtime": 36, "s_memrealtime": 37, "s_atc_probe": 38, "s_atc_probe_buffer": 39,
+}
+
+var soppOpcodes = map[string]int64{
+	"s_nop": 0, "s_endpgm": 1, "s_branch": 2, "s_wakeup": 3, "s_cbranch_scc0": 4, "s_cbranch_scc1": 5,
+	"s_cbranch_vccz": 6, "s_cbranch_vccnz": 7, "s_cbranch_execz": 8, "s_cbranch_execnz": 9, "s_barrier": 10,
+	"s_setkill": 11, "s_waitcnt": 12, "s_sethalt": 13, "s_sleep": 14, "s_setprio": 15, "s_sendmsg": 16,
+	"s_sendmsghalt": 17, "s_trap": 18, "s_icache_inv": 19, "s_incperflevel": 20, "s_decperflevel": 21,
+	"s_ttracedata": 22, "s_cbranch_cdbgsys": 23, "s_cbranch_cdbguser": 24, "s_cbranch_cdbgsys_or_user": 25,
+	"s_cbranch_cdbgsys_and_user": 26, "s_endpgm_saved": 27, "s_set_gpr_idx_off": 28, "s_set_gpr_idx_mode": 29,
+}
+
+func checkFlatOpcodes(c *core.Ctx, t *InstTables) {
+	st := c.Rule("R04.23", "every FLAT, SMEM and SOPP row of the decode table carries the opcode number the ISA manuals give its mnemonic (FLAT: loads 16..23, stores 24..31, atomics 64..76, 64-bit atomics 96..108; SMEM 0..39; SOPP 0..29; transcribed tables of 40 + 24 + 30 mnemonics), so that a real flat_atomic_* encoding decodes and an unassigned opcode does not; a mnemonic outside the tables is undecided", 80)
+	oracles := map[string]map[string]int64{"FLAT": flatOpcodes, "SMEM": smemOpcodes, "SOPP": soppOpcodes}
+	for _, r := range t.Rows {
+		oracle := oracles[r.Format]
+		if oracle == nil {
+			continue
+		}
+		name := strings.TrimSpace(r.Name)
+		st.Instances++
+		want, ok := oracle[name]
+		if !ok {
+			st.Ob(false)
+			c.Report(core.Finding{Rule: "R04.23", Pkg: instsPkg, Func: "DecodeTable", Detail: "mnemonic-unknown:" + r.Format + ":" + name, Pos: c.Position(r.Pos),
+				Msg: fmt.Sprintf("the %s row %q (opcode %d) is not a mnemonic of the transcribed %s opcode table: a misspelt name, or an instruction the table has to be extended with", r.Format, name, r.Opcode, r.Format)})
+			continue
+		}
+		st.Ob(want == r.Opcode)
+		if want != r.Opcode {
+			c.Report(core.Finding{Rule: "R04.23", Pkg: instsPkg, Func: "DecodeTable", Detail: "opcode:" + r.Format + ":" + name, Pos: c.Position(r.Pos),
+				Msg: fmt.Sprintf("%s is tabled with opcode %d; the ISA manuals give %d: the real encoding of the instruction is rejected as undecodable and opcode %d, which the ISA does not assign, decodes as %s", name, r.Opcode, want, r.Opcode, name)})
 		}
 	}
 }
